@@ -368,6 +368,19 @@ impl<'a> Ctx<'a> {
                 "timestamp-not-covered".to_string()
             } else if e.data.is_empty() && e.timestamp == 0 && e.checksum == 0 {
                 "zero-entry".to_string()
+            } else if e.validate() && a.map(|a| a.validate() && a.checksum == e.checksum && a.timestamp == e.timestamp && a.data.len() != e.data.len() && (a.data.starts_with(&e.data) || e.data.starts_with(&a.data))).unwrap_or(false) {
+                // a genuine CRC-32 collision between `len | stamp | payload` and `len' | stamp | payload'` of
+                // ANOTHER length (the length field was damaged): Props/C10Window.lean length_bit_flip_counterexample
+                "crc32-collision:length-field".to_string()
+            } else if e.validate() && a.map(|a| a.validate() && a.checksum == e.checksum && a.timestamp == e.timestamp && a.data.len() == e.data.len() && a.data.iter().zip(e.data.iter()).filter(|(x, y)| x != y).count() >= 2 && {
+                let first = a.data.iter().zip(e.data.iter()).position(|(x, y)| x != y).unwrap_or(0);
+                let last = a.data.iter().zip(e.data.iter()).rposition(|(x, y)| x != y).unwrap_or(0);
+                last - first >= 4
+            }).unwrap_or(false) {
+                // a genuine CRC-32 collision between two payloads of the same length that differ over a span
+                // of MORE than 4 bytes (anything narrower is detected: field_damage_yields_prefix):
+                // Props/C10Window.lean torn_zero_fill_counterexample
+                "crc32-collision:wide-damage".to_string()
             } else {
                 format!("{}:foreign", kind)
             };
@@ -685,6 +698,10 @@ fn run_case(c: &Case, rng: &mut Rng, out: &mut Out, thorough: bool, fixed: Optio
             if f.contains("timestamp-flip") {
                 muts.insert(0, (16 + 5, bytes[16 + 5] ^ 1));
             }
+            if f.contains("crc32-collision:length") && bytes.len() > 16 && bytes[16] == 5 {
+                // ONE flipped bit in the first length byte of the first entry: 5 -> 1
+                muts.insert(0, (16, 1));
+            }
         }
         for (pos, val) in muts {
             if bytes[pos] == val {
@@ -784,6 +801,32 @@ fn run_case(c: &Case, rng: &mut Rng, out: &mut Out, thorough: bool, fixed: Optio
                     ctx.out.count(&format!("damage:cut+constant-tail:{:02x}", run[0]));
                 }
             }
+        }
+        store.set_file_data(&name, bytes.clone());
+    }
+    // a file cut a few bytes before its end, the lost bytes zero-filled (the torn last write of a crash)
+    for (q, li, name, bytes) in wal.iter().map(|w| (&w.0, w.1, w.2.clone(), &w.3)) {
+        let mut cuts: Vec<(usize, usize)> = Vec::new(); // (bytes lost, zeros appended)
+        for lost in 1..=6usize {
+            if bytes.len() >= 16 + lost && (thorough || lost <= 5 || rng.chance(1, 2)) {
+                cuts.push((lost, lost));
+                if rng.chance(1, 3) {
+                    cuts.push((lost, lost + 16));
+                }
+                if lost > 1 && rng.chance(1, 3) {
+                    cuts.push((lost, lost - 1));
+                }
+            }
+        }
+        for (lost, zeros) in cuts {
+            let p = bytes.len() - lost;
+            let mut b = bytes[..p].to_vec();
+            b.extend(std::iter::repeat(0u8).take(zeros));
+            store.set_file_data(&name, b);
+            let rec = recover(&rot);
+            ctx.out.op(format!("ta {} {} {}", li, p, hex(&vec![0u8; zeros])), rec.as_ref().map(|r| show_entries(r)).unwrap_or("crash".into()));
+            ctx.check("torn-tail+zero-fill", *q, format!("lost={} zeros={}", lost, zeros), &rec);
+            ctx.out.count(&format!("damage:torn-tail+zero-fill:lost={}", if lost <= 4 { "1..4(proved)" } else { "5+" }));
         }
         store.set_file_data(&name, bytes.clone());
     }
@@ -978,6 +1021,16 @@ pub fn run(a: &Args) {
         run_case(&c, &mut rng, &mut out, thorough, Some("corpus:timestamp-flip+zero-fill"));
         // repaired defects (stamp 5 -> 261 flip, zero-filled tail, recover_entries_after on it): must pass
         out.count(if out.oracle.len() == before { "corpus:timestamp-flip+zero-fill:pass" } else { "corpus:timestamp-flip+zero-fill:FAIL" });
+    }
+    // KNOWN FINDING C10:only-appended:crc32-collision:* (Props/C10Window.lean): the two kernel-checked witnesses
+    // that the property's statement is false for CRC-32 — one flipped BIT of a length field, and a torn
+    // tail of 5 bytes that reads back as zeros — replayed on the real code first (must reproduce)
+    {
+        let e = |data: Vec<u8>| { let checksum = crate::cfg::entry_checksum(7, &data); WalEntry { data, timestamp: 7, checksum } };
+        let c1 = Case { max: 1 << 20, entries: vec![e(vec![65, 163, 53, 179, 117])], all_deltas: false, pre: vec![] };
+        let c2 = Case { max: 1 << 20, entries: vec![e(vec![1, 1, 150, 48, 7, 119])], all_deltas: false, pre: vec![] };
+        run_case(&c1, &mut rng, &mut out, false, Some("corpus:crc32-collision:length-bit-flip"));
+        run_case(&c2, &mut rng, &mut out, false, Some("corpus:crc32-collision:torn-zero-fill"));
     }
     // the open writer's file is NOT the last name listed: (1) sequence 2^32 (`wal-100000000.wal` sorts
     // before the older `wal-ffffffff.wal`), (2) a foreign file `wal-manifest.json` sorts after every WAL
